@@ -209,6 +209,7 @@ class CrashWorld(World):
         self.cur_step = -1
         self.cur_op = None
         self.stmt_in_op = 0
+        self.dml_in_op = 0
         self.inflight = False
         self.restarted = False
         self.slow = None  # (statement index, us) for the next op
@@ -281,6 +282,8 @@ class CrashWorld(World):
             return
         self.stmt_in_op += 1
         self.gstmt += 1
+        if self.inflight and sql.lstrip()[:7].upper().startswith(("INSERT", "UPDATE", "DELETE", "REPLACE", "WITH")):
+            self.dml_in_op += 1
         if self.kill_at is not None and self.kill_at[0] == self.gstmt and self.inflight:
             if self.kill_at[1] == "exit":
                 os._exit(0)
@@ -573,6 +576,7 @@ class CrashWorld(World):
         op = step["op"]
         self.cur_op = op
         self.stmt_in_op = 0
+        self.dml_in_op = 0
         self._files_dirty = True
         fn = getattr(self, "mop_" + op, None)
         if fn is None:
@@ -604,6 +608,11 @@ class CrashWorld(World):
         if armed and seams.COMMIT_FAULTS.fired > fired0 and out["exc"] is not None and "database is locked" in str(out["exc"]):
             # the flush attempt failed and the call raised: its write stays in the open transaction, nothing
             # was acknowledged, the store must carry on (and must not believe it has just flushed)
+            if self.dml_in_op == 0:
+                # the store tried to flush *before* writing (e.g. a rewrite implemented as read-then-update) and the
+                # failed flush made the call fail with nothing written: legitimate, but the write log cannot say
+                # so without reading -- the run is abandoned rather than modelled wrongly
+                raise Abandon("a call failed at an injected flush failure before it had written anything", None)
             self.probes["fault_commit_failed"] += 1
             self.restarted = True  # from here on a rejected valid operation is a failure to make progress after a fault
             m.returned(False, False)
